@@ -72,6 +72,14 @@ def not1 (e : Expr) : Expr := .bin .cmpeq e (c1 0)
 def diamond (a : Nat) (c : Expr) (t f : List Op) : Function :=
   mkGraph a [[.nop], t, f, []] [⟨0, 1, some c⟩, ⟨0, 2, some (not1 c)⟩, ⟨1, 3, none⟩, ⟨2, 3, none⟩] 3
 
+/-- head (nop) → `ops` when `c` → empty tail, or head → tail when `nc`: the shape of movn/movz -/
+def tri (a : Nat) (c nc : Expr) (ops : List Op) : Function :=
+  mkGraph a [[.nop], ops, []] [⟨0, 1, some c⟩, ⟨0, 2, some nc⟩, ⟨1, 2, none⟩] 2
+
+def hiS : Scalar := { name := "$hi", bits := 32 }
+def loS : Scalar := { name := "$lo", bits := 32 }
+def c64 (v : Nat) : Expr := .const ⟨64, v⟩
+
 def sext16Nat (i : BitVec 16) : Nat := (i.signExtend 32).toNat
 
 def r3Expr (op : R3) (rs rt : Reg) : Option Expr :=
@@ -103,7 +111,24 @@ def liftI (i : Instr) (a : Nat) : Option Function :=
   match i with
   | .r3 .slt rd rs rt => some (diamond a (.bin .cmplts (rx rs) (rx rt)) [.assign (rsc rd) (c32 1)] [.assign (rsc rd) (c32 0)])
   | .r3 .sltu rd rs rt => some (diamond a (.bin .cmpltu (rx rs) (rx rt)) [.assign (rsc rd) (c32 1)] [.assign (rsc rd) (c32 0)])
+  | .r3 .movn rd rs rt =>
+    some (tri a (.bin .cmpneq (rx rt) (c32 0)) (.bin .cmpeq (rx rt) (c32 0)) [.assign (rsc rd) (rx rs)])
+  | .r3 .movz rd rs rt =>
+    some (tri a (.bin .cmpeq (rx rt) (c32 0)) (.bin .cmpneq (rx rt) (c32 0)) [.assign (rsc rd) (rx rs)])
   | .r3 op rd rs rt => (r3Expr op rs rt).map fun e => g1 a [.assign (rsc rd) e]
+  | .mfhi rd => some (g1 a [.assign (rsc rd) (.scalar hiS)])
+  | .mflo rd => some (g1 a [.assign (rsc rd) (.scalar loS)])
+  | .mthi rs => some (g1 a [.assign hiS (rx rs)])
+  | .mtlo rs => some (g1 a [.assign loS (rx rs)])
+  | .muldiv .mult rs rt =>
+    let t : Scalar := { name := tempName a, bits := 64 }
+    some (g1 a [.assign t (.bin .mul (.ext .sext 64 (rx rs)) (.ext .sext 64 (rx rt))),
+                .assign hiS (.ext .trun 32 (.bin .shr (.scalar t) (c64 32))), .assign loS (.ext .trun 32 (.scalar t))])
+  | .muldiv .multu rs rt =>
+    let t : Scalar := { name := tempName a, bits := 64 }
+    some (g1 a [.assign t (.bin .mul (.ext .zext 64 (rx rs)) (.ext .zext 64 (rx rt))),
+                .assign hiS (.ext .trun 32 (.bin .shr (.scalar t) (c64 32))), .assign loS (.ext .trun 32 (.scalar t))])
+  -- div/divu: not mirrored (a zero divisor makes the IL's division fail where the manual completes: known finding)
   | .shi op rd rt sa =>
     if op = .sll ∧ rd = 0 ∧ rt = 0 then (if sa = 0 then some (g1 a [.nop]) else none)     -- nop; ssnop/ehb/pause: rejected
     else some (g1 a [.assign (rsc rd) (.bin (shOp op) (rx rt) (c32 sa.toNat))])
